@@ -17,6 +17,8 @@ def base_ops():
             ("write", "d1", "a", 2500, 0), ("write", "d1", "b", 1025, 0), ("write", "d2", "c", 1000, 0),
             ("write", "d1", "dd/f", 600, 0), ("symlink", "d1", "sl", "a"), ("hardlink", "d1", "hl", "a"),
             ("mkdir", "d2", "emptyd"), ("write", "d2", "t0", 300, 0, 0),
+            # twins: same size and the same complete time-stamp, different bytes
+            ("writeat", "d1", "tx", 1500, 0, (labmod.T0 + 7000) * 10**9 + 123), ("writeat", "d1", "ty", 1500, 1, (labmod.T0 + 7000) * 10**9 + 123),
             ("cmd", "sync")]
 
 
@@ -54,6 +56,8 @@ ALPHABET = {
     "file-on-empty-disk": [("write", "d3", "first", 100, 0)],
     "zerofile-on-empty-disk": [("write", "d3", "z", 0, 0)],
     "rm-emptydir": [("rmdir", "d2", "emptyd")],
+    # the twins exchange their inode numbers (names, bytes and stamps unchanged)
+    "swap-inodes-of-twins": [("swapinodes", "d1", "tx", "ty")],
     # a file put back from a copy: same name, size and time-stamp, new inode; its hard link made again (scanned after it)
     "restore-same-stamp": [("cp", "d1", "a", "d1", ".restore-tmp"), ("rm", "d1", "a"), ("rm", "d1", "hl"),
                            ("mv", "d1", ".restore-tmp", "d1", "a"), ("hardlink", "d1", "hl", "a")],
@@ -202,7 +206,7 @@ def post_sync_oracle(L, where):
     return v
 
 
-def pre_sync_oracle(L, where, role_ambiguous=False):
+def pre_sync_oracle(L, where, role_ambiguous=False, inodes_void=False):
     """diff exits 2 exactly when a file or link was added, removed or changed or the last sync was incomplete"""
     v = []
     try:
@@ -218,7 +222,7 @@ def pre_sync_oracle(L, where, role_ambiguous=False):
     rec_files, rec_links = norm(rec_files, rec_links)
     # files recorded with an invalid nsec compare on seconds
     differ = rec_files != gt_files or rec_links != gt_links or has_unsynced(c)
-    if "--test-fake-uuid" in L.extra_opts or L.cfg.uuid:
+    if ("--test-fake-uuid" in L.extra_opts or L.cfg.uuid) and not inodes_void:
         # persistent inodes (first two disks): a recorded file now living under another inode number was put back ("restored")
         for dn in L.cfg.disknames[:2]:
             d = c.disks.get(dn.encode())
@@ -248,8 +252,11 @@ def job(j):
     L.extra_opts = list(opts)
     if saved is None:
         # persistent-inode mode: inode numbers are observable, so the base state is rebuilt, never restored
+        if mode == "uuid-appears":
+            L.extra_opts = []
         for op in base_ops():
             X.apply_op(L, op)
+        L.extra_opts = list(opts)
     viols = []
     syncs = []
     for si, seq in enumerate(seqs):
@@ -257,7 +264,7 @@ def job(j):
             for op in ALPHABET[name]:
                 X.apply_op(L, op)
         where = "%s|%s" % ("/".join(" ".join(s) for s in seqs[:si + 1]), mode)
-        viols += pre_sync_oracle(L, "pre:" + where, role_ambiguous=mode in REBUILD)
+        viols += pre_sync_oracle(L, "pre:" + where, role_ambiguous=mode in REBUILD, inodes_void=(mode == "uuid-appears" and si == 0))
         r = L.run("sync", det=(mode != "threads"))
         syncs.append(r.rc)
         if r.rc == 0:
@@ -270,6 +277,8 @@ def job(j):
 MODES = {
     "alpha": [],
     "uuid-inode": ["--test-fake-uuid"],
+    # the base is synced while the disks report no UUID; from then on they report one (a UUID change: recorded inodes are void)
+    "uuid-appears": ["--test-fake-uuid"],
     "order-inode": [],
     "order-dir": [],
     "order-physical": [],
@@ -279,7 +288,7 @@ MODES = {
 
 
 # modes in which inode numbers / directory order are observable: the base state is rebuilt, never restored
-REBUILD = ("uuid-inode", "order-inode", "order-dir", "order-physical")
+REBUILD = ("uuid-inode", "uuid-appears", "order-inode", "order-dir", "order-physical")
 
 
 def run(ctx):
@@ -310,6 +319,11 @@ def run(ctx):
                     raise RuntimeError("base sync failed\n" + r.text())
             saved = L0.save()
         depth = d if mode == "alpha" else (2 if mode == "rehash-pending" else (1 if tier == "quick" else 2))
+        all_names = names
+        if mode == "uuid-inode":
+            # with trusted persistent inodes "same inode, size and time-stamp, other bytes" is an in-place rewrite with a preserved
+            # stamp, which no scan can see (C04's subject): the inode exchange is only used where inode numbers are void or ignored
+            names = [n for n in all_names if n != "swap-inodes-of-twins"]
         seqs = []
         for k in range(0, depth + 1):
             for s in itertools.product(names, repeat=k):
@@ -327,6 +341,7 @@ def run(ctx):
             for s in names:
                 for inc in INCOMPLETE:
                     seqs.append(((s, inc),))
+        names = all_names
         jobs = [(cfg, None if mode in REBUILD else saved, s, order_opts(mode, opts), ctx.seed, mode) for s in seqs]
         done = 0
         for j, r in par.pmap(job, jobs, deadline=ctx.deadline, chunksize=2):
